@@ -73,6 +73,10 @@ type LinkCfg struct {
 	// byte and returns a timeout-like error once; the connection stays usable
 	// (what a write deadline that is then extended looks like). 0 = never.
 	FailWriteCall int
+	// SlowWriteCall: the n-th Write call (1-based) takes SlowWriteFor of
+	// simulated time before any byte is accepted (a stalled sender). 0 = never.
+	SlowWriteCall int
+	SlowWriteFor  time.Duration
 }
 
 // DrawCfgFor is DrawCfg for a stream expected to carry about total bytes:
@@ -121,6 +125,10 @@ func DrawCfg(t *tape.Tape) LinkCfg {
 	}
 	c.YieldDen = 1 + t.Pick(6, 2, 1, 1)
 	c.EOFWithData = t.Bool(1, 4)
+	if t.Bool(1, 6) {
+		c.SlowWriteCall = 1 + t.Choose(6)
+		c.SlowWriteFor = time.Duration(200+t.Choose(3000)) * time.Millisecond
+	}
 	return c
 }
 
@@ -313,6 +321,11 @@ func (c *Conn) Write(p []byte) (int, error) {
 		return 0, timeoutErr{}
 	}
 	d.writeCalls++
+	if d.cfg.SlowWriteCall > 0 && d.writeCalls == d.cfg.SlowWriteCall && t != nil {
+		fSlowWrite.Hit()
+		c.w.Note("fault", "link "+c.name+" write call stalls for "+d.cfg.SlowWriteFor.String())
+		c.w.Sleep(d.cfg.SlowWriteFor)
+	}
 	for {
 		if c.closed {
 			return done, net.ErrClosed
@@ -638,3 +651,5 @@ func DialHook(network, address string) (net.Conn, error) {
 	}
 	return Dial(network, address)
 }
+
+var fSlowWrite = simrt.NewFault("link.write.call.stalled.in.simulated.time")
